@@ -195,6 +195,56 @@ class Model:
             set_parents(mi.tree)
         for mi in self.modules.values():
             self._index_module(mi)
+        self._positionalise_calls()
+
+    def _positionalise_calls(self) -> None:
+        """`f(a, y=b)` is `f(a, b)` when f is a package function whose second parameter is y: keyword arguments that
+        name positional parameters of a *resolved* package callee are moved to their positions (in the trees only),
+        so that rules see one calling convention.  Calls that cannot be resolved, or whose keywords would leave a
+        gap, are left as written."""
+        changed_trees = set()
+        for fi in list(self.funcs.values()):
+            for n in ast.walk(fi.node):
+                if not isinstance(n, ast.Call) or not n.keywords or any(k.arg is None for k in n.keywords) or any(isinstance(a, ast.Starred) for a in n.args):
+                    continue
+                callee = None
+                skip = 0
+                f = n.func
+                try:
+                    if isinstance(f, ast.Name):
+                        tgt = self.lookup_target(self.resolve_dotted(fi.module, fi, f.id))
+                        if isinstance(tgt, FuncInfo):
+                            callee = tgt
+                        elif isinstance(tgt, ClassInfo):
+                            callee = self.find_method(tgt, "__init__")
+                            skip = 1
+                    elif isinstance(f, ast.Attribute) and isinstance(f.value, ast.Name) and fi.cls is not None and fi.pos_params and f.value.id == fi.pos_params[0]:
+                        callee = self.find_method(fi.cls, f.attr)
+                        skip = 0 if (callee is not None and "staticmethod" in callee.decorators) else 1
+                except Exception:
+                    callee = None
+                if callee is None or isinstance(callee.node, ast.Lambda):
+                    continue
+                a = callee.node.args
+                if a.vararg is not None:
+                    continue
+                params = [x.arg for x in a.posonlyargs + a.args][skip:]
+                kw = {k.arg: k for k in n.keywords}
+                new_args = list(n.args)
+                moved = []
+                for p in params[len(n.args):]:
+                    if p in kw:
+                        new_args.append(kw[p].value)
+                        moved.append(kw[p])
+                    else:
+                        break
+                if not moved:
+                    continue
+                n.args = new_args
+                n.keywords = [k for k in n.keywords if k not in moved]
+                for v in new_args:
+                    v._parent = n  # type: ignore
+                changed_trees.add(fi.module.name)
 
     def _resolve_import_from(self, mi: ModuleInfo, node: ast.ImportFrom) -> str:
         if node.level == 0:
